@@ -142,7 +142,7 @@ void h_matid(void) {
 }
 
 // ---- O1: one make/unmake step from an arbitrary state.  verif_param: 0..2 white {piece,king,pawn}, 3..5 black.
-static void stepBody(bool checkMake, bool checkUndo) {
+static void stepBody(bool checkMake, bool checkUndo, bool lite = false) {
     PositionBase pre; int cnt[13]; unsigned mid;
     symbolicState(pre, cnt, mid);
     int kind = (int)verif_param() % 3; bool wtm = verif_param() < 3;
@@ -208,8 +208,28 @@ static void stepBody(bool checkMake, bool checkUndo) {
     Position& pos = rawPos(pre);
     Move m(Square(from), Square(to), prom);
     UndoInfo ui;
+    if (lite) pos.makeMoveB(m, ui); else
     pos.makeMove(m, ui);                                  // real
     const PositionBase& post = pos;
+    if (lite) {   // board-only variant used by MoveGen::isLegal on the live position: board as after makeMove, everything else untouched, unMakeMoveB restores all
+        int win[5] = {from, to, aux[0], aux[1], aux[2]};
+        U64 wmask = 0; for (int k = 0; k < 5; k++) if (win[k] >= 0) wmask |= 1ULL << win[k];
+        bool frame = true;
+        for (int i = 0; i < 64; i++) if (!((wmask >> i) & 1)) frame = frame && post.squares[Square(i)] == pre.squares[Square(i)];
+        for (int q = 1; q < 13; q++) frame = frame && ((post.pieceTypeBB_[q] ^ pre.pieceTypeBB_[q]) & ~wmask) == 0;
+        frame = frame && ((post.whiteBB_ ^ pre.whiteBB_) & ~wmask) == 0 && ((post.blackBB_ ^ pre.blackBB_) & ~wmask) == 0;
+        CHECK(frame, "makeMoveB: nothing outside the move's squares changes");
+        bool loc = true; for (int k = 0; k < 5; k++) if (win[k] >= 0) loc = loc && localInv(post, win[k]);
+        CHECK(loc, "makeMoveB: board array and piece sets agree on the move's squares");
+        CHECK(post.squares[Square(from)] == 0 && post.squares[Square(to)] == (prom ? prom : p), "makeMoveB: piece (or promoted piece) arrives, origin empty");
+        if (pawn && dx != 0 && c == 0) CHECK(post.squares[Square(aux[0])] == 0, "makeMoveB: pawn captured en passant removed");
+        if (king && (dx == 2 || dx == -2)) CHECK(post.squares[Square(aux[0])] == (wtm ? Piece::WROOK : Piece::BROOK) && post.squares[Square(aux[1])] == 0, "makeMoveB: castling rook moved");
+        CHECK(post.whiteMove == pre.whiteMove && post.castleMask == pre.castleMask && post.epSquare == pre.epSquare && post.hashKey == pre.hashKey && post.pHashKey == pre.pHashKey &&
+              post.matId.hash == pre.matId.hash && post.wMtrl_ == pre.wMtrl_ && post.bMtrl_ == pre.bMtrl_ && post.halfMoveClock == pre.halfMoveClock, "makeMoveB leaves side, rights, keys and material alone");
+        pos.unMakeMoveB(m, ui);                           // real
+        CHECK(sameState(post, pre), "unMakeMoveB restores every field");
+        return;
+    }
     verif_observe(post.hashKey); verif_observe(post.pHashKey); verif_observe((U64)(unsigned)post.matId.hash);
 
     if (checkMake) {
@@ -283,7 +303,8 @@ static void stepBody(bool checkMake, bool checkUndo) {
     }
 }
 void h_step(void) { stepBody(true, false); END(); }      // makeMove: frame, invariant, deltas, rules
-void h_undo(void) { stepBody(false, true); END(); }      // makeMove followed by unMakeMove: bit-identical state
+void h_undo(void) { stepBody(false, true); END(); }
+void h_undoB(void) { stepBody(false, false, true); END(); } // makeMoveB / unMakeMoveB (legality filter's board-only pair)      // makeMove followed by unMakeMove: bit-identical state
 
 // ---- O3: single-square primitives from an arbitrary state
 void h_setpiece(void) {
@@ -397,6 +418,10 @@ void h_serialize(void) {
     PositionBase junk;
     for (int i = 0; i < 64; i++) junk.squares[Square(i)] = 3;
     junk.whiteMove = !a.whiteMove; junk.castleMask = 15 - a.castleMask; junk.epSquare = Square(5); junk.halfMoveClock = 7; junk.fullMoveCounter = 9;
+    // the target object is a reused one: every derived field holds an arbitrary left-over value
+    junk.wMtrl_ = nondet_int(); junk.bMtrl_ = nondet_int(); junk.wMtrlPawns_ = nondet_int(); junk.bMtrlPawns_ = nondet_int();
+    for (int q = 0; q < 13; q++) junk.pieceTypeBB_[q] = nondet_u64();
+    junk.whiteBB_ = nondet_u64(); junk.blackBB_ = nondet_u64(); junk.hashKey = nondet_u64(); junk.pHashKey = nondet_u64(); junk.matId.hash = nondet_int();
     Position& pos2 = rawPos(junk);
     pos2.deSerialize(data);                               // real
     const PositionBase& b = pos2;
